@@ -157,4 +157,87 @@ theorem sum_map_le_length {α : Type} (f : α → Nat) : ∀ (l : List α), (∀
     have := sum_map_le_length f l (fun x hx => h x (List.mem_cons_of_mem _ hx))
     omega
 
+/-! ### the id counter: only a create transaction advances it, and it registers the id it takes -/
+
+theorem nextId_step {s : State} (hw : WF s) (op : Op) :
+    (step s op).1.nextId = s.nextId ∨
+    ((step s op).1.nextId = s.nextId + 1 ∧ ((step s op).1.triggers s.nextId).isSome = true) := by
+  cases op with
+  | fund a amt => exact Or.inl rfl
+  | pay f t amt =>
+    simp only [step]
+    split
+    · next s' hs => obtain ⟨b, hb⟩ := bankSend_ok hs; subst hb; exact Or.inl rfl
+    · exact Or.inl rfl
+  | create m rem hh tm =>
+    simp only [step]
+    split
+    · next s' id g hc =>
+      obtain ⟨_, _, _, _, _, owner, rest, _, hs⟩ := createTrigger_ok hc
+      subst hs
+      exact Or.inr ⟨rfl, by simp [setGasLimit, setEventListener, setTrigger]⟩
+    · exact Or.inl rfl
+  | destroy auth id =>
+    simp only [step]
+    split
+    · next s' hd => exact Or.inl (WF_destroyTrigger hw hd).2.nextId
+    · exact Or.inl rfl
+  | beginBlock cost =>
+    simp only [step, processTriggers]
+    obtain ⟨s', xs, hp, _, _, _, _, _, hnx, _⟩ := processLoop_spec cost MaximumActions 0 s hw
+    rw [hp]; exact Or.inl hnx
+  | endBlock evs hh tm =>
+    simp only [step, detectBlockEvents]
+    split
+    · next s' ts hd =>
+      split at hd
+      · next ts' hda =>
+        cases hd
+        obtain ⟨hnd, hreg⟩ := detectAll_spec hw hda
+        obtain ⟨_, _, hnx, _⟩ := queueDetected_spec hh tm ts s hw hnd (fun t ht => (hreg t ht).1)
+        exact Or.inl hnx
+      · cases hd
+    · exact Or.inl rfl
+
+/-- An unborn id is still unborn or has just been registered (waiting) after one operation: it
+cannot appear in the queue or be gone without having been waiting first. -/
+theorem place_unborn_step {s : State} (hw : WF s) (op : Op) (id : Nat) (h : place s id = .unborn) :
+    place (step s op).1 id = .unborn ∨ place (step s op).1 id = .waiting := by
+  have hw' := WF_step hw op
+  have hm := Mono_step hw op
+  have hreg : registered s id = false := by
+    unfold place at h; split at h
+    · cases h
+    · simpa using ‹¬ registered s id = true›
+  have hque : queued s id = false := by
+    unfold place at h; rw [hreg] at h; simp only [Bool.false_eq_true, if_false] at h
+    split at h
+    · cases h
+    · simpa using ‹¬ queued s id = true›
+  have hrange : ¬ (1 ≤ id ∧ id < s.nextId) := by
+    unfold place at h; rw [hreg, hque] at h; simp only [Bool.false_eq_true, if_false] at h
+    split at h
+    · cases h
+    · assumption
+  by_cases hr' : registered (step s op).1 id = true
+  · right; simp [place, hr']
+  · left
+    have hq' : ¬ queued (step s op).1 id = true := by
+      intro hq
+      rcases hm.que id (by simpa [queued] using hq) with e | e
+      · simp [queued, e] at hque
+      · simp [registered, e] at hreg
+    unfold place
+    rw [if_neg hr', if_neg hq']
+    rw [if_neg]
+    rintro ⟨h1, h2⟩
+    rcases nextId_step hw op with e | ⟨e, hsome⟩
+    · rw [e] at h2; exact hrange ⟨h1, h2⟩
+    · rw [e] at h2
+      have : id = s.nextId := by
+        have : ¬ id < s.nextId := fun hlt => hrange ⟨h1, hlt⟩
+        omega
+      subst this
+      exact hr' hsome
+
 end PvProofs.Lemmas.Trig
